@@ -52,6 +52,8 @@ struct NameRec {
     sheet: usize, // sheet that holds the name
     name: String,
     ast: Ast, // a single Ref
+    /// a second area (the name is then a union "first,second"; the areas may lie on different sheets)
+    second: Option<Ast>,
 }
 
 fn used_lines(items: &[&Ast], own: &dyn Fn(usize) -> String, owners: &[usize], edited: &str, is_row: bool) -> BTreeSet<u32> {
@@ -145,9 +147,30 @@ pub fn run(args: &Args) {
                     r.sheet = Some(sheets[ti].clone());
                 }
                 let name = format!("Name_{}", i);
-                let ast = Ast::Ref(r);
-                let _ = book.get_sheet_mut(&si).unwrap().add_defined_name(name.clone(), render(&ast));
-                names.push(NameRec { sheet: si, name, ast });
+                let mut ast = Ast::Ref(r);
+                // a third of the names are unions of two areas, possibly on different sheets, in either order
+                let mut second = None;
+                if rng.chance(1, 3) {
+                    let mut r2 = gen_ref(&mut rng, &cfg);
+                    let t2 = rng.below(sheets.len() as u64) as usize;
+                    let usable = !matches!(r2.kind, RefKind::Cols(..) | RefKind::Rows(..)) && (r2.sheet.is_some() || !needs_quote(&sheets[t2]) || allow.contains("sheet-quoted"));
+                    if usable {
+                        if r2.sheet.is_none() {
+                            r2.sheet = Some(sheets[t2].clone());
+                        }
+                        let mut a2 = Ast::Ref(r2);
+                        if rng.chance(1, 2) {
+                            std::mem::swap(&mut ast, &mut a2);
+                        }
+                        second = Some(a2);
+                    }
+                }
+                let text = match &second {
+                    Some(a2) => format!("{},{}", render(&ast), render(a2)),
+                    None => render(&ast),
+                };
+                let _ = book.get_sheet_mut(&si).unwrap().add_defined_name(name.clone(), text);
+                names.push(NameRec { sheet: si, name, ast, second });
             }
             // chart series (always sheet-qualified absolute ranges, as Excel writes them); the chart itself sits far away
             if rng.chance(1, 3) {
@@ -287,6 +310,12 @@ pub fn run(args: &Args) {
             let desc = format!("{}_{} {} p={} n={}", if insert { "insert" } else { "remove" }, if is_row { "row" } else { "col" }, edited, p, n);
             hist.push(desc.clone());
             o.count(&format!("edit.{}", desc.split(' ').next().unwrap()), 1);
+            if std::env::var("UVH_DEBUG").is_ok() {
+                for pl in placed.iter().filter(|p| p.alive) {
+                    let got = book.get_sheet(&pl.sheet).and_then(|ws| ws.get_cell((pl.col, pl.row))).map(|c| c.get_formula().to_string()).unwrap_or_default();
+                    eprintln!("DEBUG before [{}] {}!({},{}) model {:?} library {:?}", desc, sheets[pl.sheet], pl.col, pl.row, render(&pl.ast), got);
+                }
+            }
             let res = guard(|| match (is_row, insert) {
                 (true, true) => book.insert_new_row(&edited, &p, &n),
                 (true, false) => book.remove_row(&edited, &p, &n),
@@ -322,10 +351,12 @@ pub fn run(args: &Args) {
                     *a = shift_ast(a, &own, &edited, &e);
                 }
             }
-            names.retain(|nm| !render(&nm.ast).contains("#REF!"));
+            // a name (or a union with an area) whose target was deleted is not followed any further
+            names.retain(|nm| !render(&nm.ast).contains("#REF!") && !nm.second.as_ref().map(|a| render(a).contains("#REF!")).unwrap_or(false));
             for nm in names.iter_mut() {
                 let own = sheets[nm.sheet].clone();
                 nm.ast = shift_ast(&nm.ast, &own, &edited, &e);
+                nm.second = nm.second.as_ref().map(|a| shift_ast(a, &own, &edited, &e));
             }
             // observe
             for pl in placed.iter().filter(|p| p.alive) {
@@ -391,6 +422,20 @@ pub fn run(args: &Args) {
                     Err(err) => format!("<observer panic {}>", err),
                 };
                 let alt = render(&strip_referr_prefix(&nm.ast));
+                if let Some(a2) = &nm.second {
+                    // union of two areas: every area follows its own sheet; once an area was deleted the outcome is not modelled
+                    let exp2 = render(a2);
+                    o.count("defined-name-observations.union", 1);
+                    if exp.contains("#REF!") || exp2.contains("#REF!") {
+                        continue;
+                    }
+                    let areas: Vec<String> = got.split(',').map(|x| canon_qualified(x)).collect();
+                    if areas != vec![canon_qualified(&exp), canon_qualified(&exp2)] {
+                        o.div(format!("defined-name-union:{}", desc.split(' ').next().unwrap()), format!("name {} after {}: expected {:?} got {:?}; history {:?}", nm.name, desc, format!("{},{}", exp, exp2), got, hist));
+                        break 'edits;
+                    }
+                    continue;
+                }
                 // a name whose whole target was removed may also keep an empty refers-to: it designates no cell
                 let deleted_ok = exp.contains("#REF!") && (got.is_empty() || got == "<name missing>");
                 if !deleted_ok && canon_qualified(&got) != canon_qualified(&exp) && canon_qualified(&got) != canon_qualified(&alt) {
